@@ -93,7 +93,16 @@ func runC02(c *fw.Ctx, idx int) fw.Result {
 	refFasta := gen.RefFasta(sf.RefName, ref, []int{0, 60, 7}[r.Intn(3)])
 	dir := filepath.Join(c.Tmp, fmt.Sprintf("c02-%d", idx))
 
-	files, err := run.ToPairAlignDir(sf.Text, refFasta, dir, wrap, s, e, omitRef, omitIns, threads)
+	var stale map[string]string
+	if idx%4 == 1 {
+		// the output directory is reused: it already holds longer files for the same queries
+		stale = map[string]string{}
+		for _, q := range sf.Queries {
+			stale[strings.ReplaceAll(q.Name, "/", "_")+".fasta"] = staleContent(3*L + 600)
+		}
+		res.Count("cases_with_reused_output_directory", 1)
+	}
+	files, err := run.ToPairAlignDirStale(sf.Text, refFasta, dir, wrap, s, e, omitRef, omitIns, threads, stale)
 	res.Evals++
 	padOut, perr := run.ToMultiAlign(sf.Text, -1, -1, -1, true, 1)
 	res.Evals++
